@@ -86,6 +86,8 @@ def cases(tier, seed):
     for k in range(0, 4):
         for sub in itertools.combinations(["a", "n", "t", "_source", "zz"], k):
             yield {"kind": "proj", "rec": mk("p/rec", base, 0, "ps"), "names": list(sub)}
+            if sub and "zz" not in sub:
+                yield {"kind": "proj", "rec": mk("p/rec", base, 0, "ps"), "names": list(sub), "falsy": True}
     # (5) field rewriter
     alln = ["a", "n", "t", "zz", "_source"]
     fields_lists = [[]] + [list(p) for k in (1, 2, 3) for p in itertools.permutations(alln, k)]
@@ -95,6 +97,11 @@ def cases(tier, seed):
             if len(fl) == 3 and len(ex) == 2 and not thorough:
                 continue
             yield {"kind": "rewrite", "fields": fl, "exclude": ex}
+    for expr in REWRITE_EXPRS:
+        for k in (1, 2, 3):
+            for seq in itertools.product(["D", "D1", "D2", "E"], repeat=k):
+                for fl, ex in (([], []), (["a"], []), ([], ["n"])):
+                    yield {"kind": "rewrite", "fields": fl, "exclude": ex, "expr": expr, "seq": list(seq)}
 
 
 def expected_record(name, fields, values, meta):
@@ -152,19 +159,22 @@ def run_merge(case):
             want = expected_record(want_name, [[ftype[n], n] for n in order], fval, meta)
         except Exception as e:  # noqa: BLE001  the model's own combination is not constructible
             return {"ev": 1, "h": h, "nt": False, "out": "model-unconstructible:" + type(e).__name__}
-        try:
-            out = extend_record(records[0], records[1:], replace=replace, name=name)
-            got = obs(out)
-            d = recs.locate(want, got)
-            if d:
-                viol.append(("C15:merge:%s:%s:%s" % ("replace" if replace else "keep", "n=%d" % len(records), d[2] if d[0] not in ("<fields>", "<name>") else d[0]), case,
-                             {"where": d[0], "diff": d[2], "want_fields": want[2], "got_fields": got[2], "cache": temp}))
-                outs.append("diff")
-            else:
-                outs.append("ok")
-        except Exception as e:  # noqa: BLE001
-            viol.append(("C15:merge:raises-%s:%s" % (type(e).__name__, "replace" if replace else "keep"), case, {"error": repr(e)[:200], "cache": temp}))
-            outs.append("raise")
+        forms = {"list": lambda xs: list(xs), "tuple": lambda xs: tuple(xs), "generator": lambda xs: (x for x in xs), "iter": lambda xs: iter(list(xs))}
+        for form, mk_ in forms.items():
+            suffix = "" if form == "list" else ":other_records-as-" + form
+            try:
+                out = extend_record(records[0], mk_(records[1:]), replace=replace, name=name)
+                got = obs(out)
+                d = recs.locate(want, got)
+                if d:
+                    viol.append(("C15:merge:%s:%s:%s%s" % ("replace" if replace else "keep", "n=%d" % len(records), d[2] if d[0] not in ("<fields>", "<name>") else d[0], suffix), case,
+                                 {"where": d[0], "diff": d[2], "want_fields": want[2], "got_fields": got[2], "cache": temp}))
+                    outs.append("diff")
+                else:
+                    outs.append("ok")
+            except Exception as e:  # noqa: BLE001
+                viol.append(("C15:merge:raises-%s:%s%s" % (type(e).__name__, "replace" if replace else "keep", suffix), case, {"error": repr(e)[:200], "cache": temp}))
+                outs.append("raise")
         if [obs(r) for r in records] != before:
             viol.append(("C15:merge:original-modified", case, {}))
     if len(set(outs)) > 1:
@@ -293,6 +303,12 @@ def run_group(case):
                     break
             if [obs(m) for m in members] != before_members:
                 viol.append(("C15:group:replace-modified-original", case, {}))
+            # a replacement value that is falsy is a value like any other
+            falsy = {"string": "", "varint": 0}
+            if t in falsy:
+                g3 = g._replace(**{n: falsy[t]})
+                if obs(getattr(g3, n)) != obs(recs.descriptor("x/x", [[t, "v"]])(v=falsy[t]).v):
+                    viol.append(("C15:group:replace-not-applied:falsy-value", case, {"field": n, "got": repr(getattr(g3, n))}))
             # the copy is a grouped record of its own: assigning any field of the copy reaches no member of the original
             later = {"string": "assigned-later", "varint": 31337, "datetime": lit.ev("dt(2031,2,3,tz=UTC)")}
             for t2, n2 in order:
@@ -321,6 +337,8 @@ def run_proj(case):
     before = obs(rec)
     names = case["names"]
     newvals = {"a": "new-a", "n": 777, "t": lit.ev("dt(2022,3,4,tz=UTC)"), "_source": "new-src", "zz": "unknown"}
+    if case.get("falsy"):
+        newvals.update({"a": "", "n": 0, "_source": ""})
     kw = {k: newvals[k] for k in names}
     known = [k for k in names if k in rec.__slots__]
     # _replace
@@ -398,8 +416,49 @@ def run_proj(case):
     return {"ev": 4, "h": h, "nt": bool(known), "out": "proj:%s" % ("ok" if not v2 else "bad"), "viol": v2}
 
 
+REWRITE_EXPRS = ["extra = 1", "total = n + 1", "label = a.upper()", "if isinstance(n, int) and n > 4:\n    big = n", "a = 'overridden'", "x = 1\ny = x + n",
+                 "try:\n    half = n / 2\nexcept TypeError:\n    pass"]
+
+
+def run_rewrite_expr(case):
+    """A rewriter with an expression over a history of records (some make the expression raise, the caller carries on): every result
+    must be what a fresh rewriter gives for that record alone."""
+    from flow.record.stream import RecordFieldRewriter
+
+    h = jhash(case)
+    viol = []
+    specs = {"D": rs("w/rec", [["string", "a"], ["varint", "n"]], ["'0404'", "5"]), "D1": rs("w/rec", [["varint", "a"], ["string", "n"]], ["404", "'five'"]),
+             "D2": rs("w/rec", [["string", "a"], ["varint", "n"]], ["'aa'", "2"]), "E": rs("w/other", [["string", "a"]], ["'only-a'"])}
+    rw = RecordFieldRewriter(list(case["fields"]), list(case["exclude"]), case["expr"])
+    outs = []
+    for label in case["seq"]:
+        rec = recs.build_record(specs[label])
+        before = obs(rec)
+
+        def attempt(r_):
+            try:
+                return ["value", obs(r_.rewrite(rec))]
+            except Exception as e:  # noqa: BLE001
+                return ["raise", type(e).__name__]
+
+        got = attempt(rw)
+        want = attempt(RecordFieldRewriter(list(case["fields"]), list(case["exclude"]), case["expr"]))
+        outs.append(got[0])
+        if got != want:
+            viol.append(("C15:rewrite:expression:history-dependent:%s" % ("after-raise" if "raise" in outs[:-1] else "plain"), case,
+                         {"record": label, "with_history": got, "fresh_rewriter": want}))
+            break
+        if obs(rec) != before:
+            viol.append(("C15:rewrite:expression:original-modified", case, {"record": label}))
+            break
+    return {"ev": len(case["seq"]), "h": h, "nt": True, "out": "rewrite-expr:" + "/".join(sorted(set(outs))), "viol": viol}
+
+
 def run_rewrite(case):
     from flow.record.stream import RecordFieldRewriter
+
+    if case.get("expr"):
+        return run_rewrite_expr(case)
 
     h = jhash(case)
     viol = []
